@@ -345,6 +345,51 @@ macro_rules! impl_tryfrom_float {
 impl_tryfrom_float!(f32);
 impl_tryfrom_float!(f64);
 
+/// Checked integer arithmetic needed by [parse_nr1].
+trait Nr1Int: Sized + Copy {
+    const ZERO: Self;
+    fn mul10_add(self, digit: u8, negative: bool) -> Option<Self>;
+}
+
+macro_rules! impl_nr1_int {
+    ($($typ:ty),*) => {$(
+        impl Nr1Int for $typ {
+            const ZERO: Self = 0;
+            fn mul10_add(self, digit: u8, negative: bool) -> Option<Self> {
+                let x = self.checked_mul(10)?;
+                if negative {
+                    x.checked_sub(digit as $typ)
+                } else {
+                    x.checked_add(digit as $typ)
+                }
+            }
+        }
+    )*};
+}
+impl_nr1_int!(u8, i8, u16, i16, u32, i32, u64, i64, usize, isize);
+
+/// Parse an NR1 (`[+-]digits`) literal exactly.
+///
+/// Anything else reports `InvalidDigit` so that the caller falls back to the floating point path.
+/// (lexical-core 0.8 does not detect every overflow, e.g. `511` parses as the u8 255.)
+fn parse_nr1<T: Nr1Int>(s: &[u8]) -> core::result::Result<T, lexical_core::Error> {
+    let (negative, digits) = match s.split_first() {
+        Some((b'-', rest)) => (true, rest),
+        Some((b'+', rest)) => (false, rest),
+        _ => (false, s),
+    };
+    if digits.is_empty() || !digits.iter().all(u8::is_ascii_digit) {
+        return Err(lexical_core::Error::InvalidDigit(0));
+    }
+    digits.iter().try_fold(T::ZERO, |acc, d| {
+        acc.mul10_add(d - b'0', negative).ok_or(if negative {
+            lexical_core::Error::Underflow(0)
+        } else {
+            lexical_core::Error::Overflow(0)
+        })
+    })
+}
+
 // TODO: Shitty way of rounding integers
 macro_rules! impl_tryfrom_integer {
     ($from:ty, $intermediate:ty) => {
@@ -353,7 +398,7 @@ macro_rules! impl_tryfrom_integer {
 
             fn try_from(value: Token) -> Result<Self, Self::Error> {
                 match value {
-                    Token::DecimalNumericProgramData(value) => lexical_core::parse::<$from>(value)
+                    Token::DecimalNumericProgramData(value) => parse_nr1::<$from>(value)
                         .or_else(|e| {
                             if matches!(e, lexical_core::Error::InvalidDigit(_)) {
                                 let value = lexical_core::parse::<$intermediate>(value)?;
